@@ -19,7 +19,7 @@ theorem session_refinesR (env : Env) (ok : EnvOK env) (o : Opts) (ops : List Op)
 /-- one session on a fresh directory, retention off: every reply satisfies the (unconditional) claim -/
 theorem session_refines (env : Env) (ok : EnvOK env) (o : Opts) (hk : o.keep = 0) (ops : List Op)
     (hops : ∀ op ∈ ops, op.isReopen = false ∧ op.sizeOK) :
-    AllHold (specRun {} (.reopen o :: ops)) (run env init (.reopen o :: ops)).2 := by
+    AllHold (specRun env init {} (.reopen o :: ops)) (run env init (.reopen o :: ops)).2 := by
   rw [← specRunR_eq_specRun env (.reopen o :: ops) init {} init_noloss]
   · exact session_refinesR env ok o ops hops
   · intro op hop
